@@ -62,7 +62,9 @@ type assumption struct {
 	typeTest func(fn *ssa.Function, ta *ssa.TypeAssert, bound map[*ssa.Parameter]string) (abool, bool)
 	// bind tells which role an argument value plays at a call site (so that the callee's parameter gets that role)
 	bind  func(fn *ssa.Function, arg ssa.Value, bound map[*ssa.Parameter]string) string
-	depth int
+	// ignoreRet (optional): returns that are outside the question asked (e.g. behind a divisor-zero test); they are left out of call summaries
+	ignoreRet func(fn *ssa.Function, ret *ssa.Return) bool
+	depth     int
 }
 
 type absResult struct {
@@ -275,9 +277,32 @@ func (as *assumption) callSummary(fn *ssa.Function, c *ssa.Call, bound map[*ssa.
 	res := sub.run(g, nb)
 	nres := g.Signature.Results().Len()
 	out := make([]aval, nres)
-	first := true
+	firstAt := make([]bool, nres)
+	for i := range firstAt {
+		firstAt[i] = true
+	}
+	// (value, error) results: the value of a failing return is not a value of the call - callers read it only
+	// after testing the error (the Go convention; joining it in would lose the correlation value <-> success)
+	errIdx := -1
+	if nres >= 2 && isErrorType(g.Signature.Results().At(nres-1).Type()) {
+		errIdx = nres - 1
+	}
+	any2 := false
 	for _, r := range res.rets {
+		if as.ignoreRet != nil && as.ignoreRet(g, r) {
+			continue
+		}
+		failing := false
+		if errIdx >= 0 && errIdx < len(r.Results) {
+			if ev := res.ev(retVal(r, errIdx)); ev.kind == 3 && ev.isNil == abFalse {
+				failing = true
+			}
+		}
+		any2 = true
 		for i := 0; i < nres && i < len(r.Results); i++ {
+			if failing && i != errIdx {
+				continue
+			}
 			v := res.ev(retVal(r, i))
 			if v.kind == 0 && isErrorType(g.Signature.Results().At(i).Type()) {
 				v = aval{kind: 3, isNil: abBoth}
@@ -285,15 +310,15 @@ func (as *assumption) callSummary(fn *ssa.Function, c *ssa.Call, bound map[*ssa.
 			if bt, ok := g.Signature.Results().At(i).Type().Underlying().(*types.Basic); ok && bt.Kind() == types.Bool && v.kind == 0 {
 				v = aval{kind: 2, b: abBoth}
 			}
-			if first {
+			if firstAt[i] {
 				out[i] = v
+				firstAt[i] = false
 			} else {
 				out[i] = out[i].join(v)
 			}
 		}
-		first = false
 	}
-	if first {
+	if !any2 {
 		return nil
 	}
 	memo[c] = out
